@@ -1,11 +1,469 @@
-// Package c01 - correspondence harness for C01 (stub: not built yet).
+// Package c01 drives the real verifier.Verify and notation.VerifyBlob with envelopes that are
+// freshly signed, signed for another artifact, re-assembled from parts of other valid
+// envelopes, or byte-mutated, crossed with descriptors / blobs, required metadata and levels.
+// The abstract facts of an envelope (parses, integrity, payload type, decoded payload) are
+// computed by an independent route: notation-core-go and encoding/json called directly.
 package c01
 
 import (
-	"errors"
+	"bytes"
+	"context"
+	"crypto/x509"
+	"encoding/json"
+	"fmt"
+	"sort"
+	"time"
 
+	"github.com/notaryproject/notation-core-go/signature"
+	_ "github.com/notaryproject/notation-core-go/signature/cose"
+	_ "github.com/notaryproject/notation-core-go/signature/jws"
+	"github.com/notaryproject/notation-go"
+	"github.com/notaryproject/notation-go/internal/envelope"
+	"github.com/notaryproject/notation-go/verifier"
+	"github.com/notaryproject/notation-go/verifier/trustpolicy"
 	"github.com/notaryproject/notation-go/xverif/common"
+	"github.com/opencontainers/go-digest"
+	ocispec "github.com/opencontainers/image-spec/specs-go/v1"
 )
 
-// Run generates the cases of C01.
-func Run(c *common.Ctx) error { return errors.New("C01: harness not built yet") }
+type Desc struct {
+	MediaType   string      `json:"mediaType"`
+	Digest      string      `json:"digest"`
+	Size        int64       `json:"size"`
+	Annotations [][2]string `json:"annotations"`
+}
+
+type Input struct {
+	Kind          string      `json:"kind"`
+	Skip          bool        `json:"skip"`
+	ParseOk       bool        `json:"parseOk"`
+	IntegrityOk   bool        `json:"integrityOk"`
+	PayloadTypeOk bool        `json:"payloadTypeOk"`
+	Rest          bool        `json:"rest"`
+	Decoded       *Desc       `json:"decoded"`
+	Artifact      Desc        `json:"artifact"`
+	HashSupported bool        `json:"hashSupported"`
+	Required      [][2]string `json:"required"`
+}
+
+type Obs struct {
+	Accepted     bool  `json:"accepted"`
+	OutcomeError *bool `json:"outcomeError"`
+	Payload      *Desc `json:"payload"`
+	Returned     *Desc `json:"returned"`
+}
+
+func toDesc(d ocispec.Descriptor) Desc {
+	out := Desc{MediaType: d.MediaType, Digest: string(d.Digest), Size: d.Size, Annotations: [][2]string{}}
+	keys := make([]string, 0, len(d.Annotations))
+	for k := range d.Annotations {
+		keys = append(keys, k)
+	}
+	sort.Strings(keys)
+	for _, k := range keys {
+		out.Annotations = append(out.Annotations, [2]string{k, d.Annotations[k]})
+	}
+	return out
+}
+
+// facts computes the abstract facts of an envelope by the independent route.
+func facts(env []byte, format string) (parseOk, integrityOk, typeOk bool, decoded *Desc, content *signature.EnvelopeContent) {
+	e, err := signature.ParseEnvelope(format, env)
+	if err != nil {
+		return
+	}
+	parseOk = true
+	c, err := e.Verify()
+	if err != nil {
+		return
+	}
+	integrityOk = true
+	content = c
+	typeOk = c.Payload.ContentType == envelope.MediaTypePayloadV1
+	var p envelope.Payload
+	if json.Unmarshal(c.Payload.Content, &p) == nil {
+		d := toDesc(p.TargetArtifact)
+		decoded = &d
+	}
+	return
+}
+
+type world struct {
+	chain, other *common.Chain
+	blob         []byte
+	blobDesc     ocispec.Descriptor
+	art          ocispec.Descriptor
+}
+
+func newWorld() *world {
+	nb := time.Now().Add(-48 * time.Hour)
+	w := &world{
+		chain: common.MakeChain(common.ChainOpts{Tag: "c01", RootNB: nb, LeafNB: nb}),
+		other: common.MakeChain(common.ChainOpts{Tag: "c01 other", RootNB: nb, LeafNB: nb}),
+		blob:  []byte("the blob under verification, c01"),
+	}
+	w.art = ocispec.Descriptor{MediaType: "application/vnd.oci.image.manifest.v1+json", Digest: digest.FromString("c01 artifact"), Size: 528,
+		Annotations: map[string]string{"org.example.build": "42", "org.example.team": "core"}}
+	w.blobDesc = ocispec.Descriptor{MediaType: "application/octet-stream", Digest: digest.FromBytes(w.blob), Size: int64(len(w.blob)),
+		Annotations: map[string]string{"org.example.build": "42", "org.example.team": "core"}}
+	return w
+}
+
+// an envelope together with its label for the distribution histogram
+type envCase struct {
+	label  string
+	format string
+	bytes  []byte
+	signer string // "" = the main chain, "other" = the second chain (when integrity holds)
+}
+
+func rawPayload(target string) []byte { return []byte(`{"targetArtifact":` + target + `}`) }
+
+// variants of the signed target relative to the base descriptor d
+func targetVariants(d ocispec.Descriptor) map[string]ocispec.Descriptor {
+	v := map[string]ocispec.Descriptor{"exact": d}
+	x := d
+	x.Digest = digest.FromString("another artifact")
+	v["digest"] = x
+	x = d
+	x.Size = d.Size + 1
+	v["size"] = x
+	x = d
+	x.MediaType = "application/vnd.oci.image.index.v1+json"
+	v["mediaType"] = x
+	x = d
+	x.Digest, x.Size = digest.FromString("another artifact"), d.Size+7
+	v["digest+size"] = x
+	x = d
+	x.Size, x.MediaType = d.Size-1, "application/vnd.docker.distribution.manifest.v2+json"
+	v["size+mediaType"] = x
+	x = d
+	x.Annotations = map[string]string{"org.example.build": "43", "org.example.team": "core"}
+	v["annotation-value"] = x
+	x = d
+	x.Annotations = map[string]string{"org.example.team": "core"}
+	v["annotation-missing"] = x
+	x = d
+	x.Annotations = nil
+	v["no-annotations"] = x
+	x = d
+	x.MediaType = ""
+	v["empty-mediaType"] = x
+	return v
+}
+
+// envelopes builds the envelope pool for a base descriptor.
+func (w *world) envelopes(c *common.Ctx, d ocispec.Descriptor) []envCase {
+	var out []envCase
+	var fresh = map[string][]byte{}
+	for name, t := range targetVariants(d) {
+		t := t
+		for _, f := range []string{common.MediaJWS, common.MediaCOSE} {
+			b := common.MustSign(common.EnvOpts{Format: f, Chain: w.chain, Target: &t})
+			out = append(out, envCase{"fresh/" + name, f, b, ""})
+			fresh[f+name] = b
+		}
+	}
+	// payload oddities (COSE carries the payload bytes verbatim)
+	dj, _ := json.Marshal(d)
+	odd := map[string][]byte{
+		"spelling-TargetArtifact": []byte(`{"TargetArtifact":` + string(dj) + `}`),
+		"duplicate-target-last-other": []byte(`{"targetArtifact":` + string(dj) + `,"targetArtifact":{"mediaType":"` + d.MediaType +
+			`","digest":"` + string(digest.FromString("another artifact")) + `","size":1}}`),
+		"duplicate-target-last-exact": []byte(`{"targetArtifact":{"mediaType":"x","digest":"` + string(digest.FromString("zzz")) +
+			`","size":1},"targetArtifact":` + string(dj) + `}`),
+		"null-target":    []byte(`{"targetArtifact":null}`),
+		"not-json":       []byte(`this is not json`),
+		"array":          []byte(`[1,2,3]`),
+		"extra-field":    []byte(`{"targetArtifact":` + string(dj) + `,"extra":true}`),
+		"size-as-string": []byte(`{"targetArtifact":{"mediaType":"` + d.MediaType + `","digest":"` + string(d.Digest) + `","size":"528"}}`),
+	}
+	for name, p := range odd {
+		b, err := common.SignEnvelope(common.EnvOpts{Format: common.MediaCOSE, Chain: w.chain, Payload: p})
+		if err == nil {
+			out = append(out, envCase{"payload/" + name, common.MediaCOSE, b, ""})
+		}
+	}
+	// wrong payload content type
+	for _, f := range []string{common.MediaJWS, common.MediaCOSE} {
+		b, err := common.SignEnvelope(common.EnvOpts{Format: f, Chain: w.chain, Target: &d, ContentType: "application/json"})
+		if err == nil {
+			out = append(out, envCase{"content-type", f, b, ""})
+		}
+	}
+	// re-assembled JWS: parts of two valid envelopes
+	a, b := fresh[common.MediaJWS+"exact"], fresh[common.MediaJWS+"digest"]
+	var ja, jb map[string]json.RawMessage
+	json.Unmarshal(a, &ja)
+	json.Unmarshal(b, &jb)
+	for _, part := range []string{"payload", "protected", "signature", "header"} {
+		m := map[string]json.RawMessage{}
+		for k, v := range jb {
+			m[k] = v
+		}
+		m[part] = ja[part] // envelope for another artifact with one part of the exact one
+		x, _ := json.Marshal(m)
+		out = append(out, envCase{"reassembled/" + part + "-of-exact", common.MediaJWS, x, ""})
+		m = map[string]json.RawMessage{}
+		for k, v := range ja {
+			m[k] = v
+		}
+		m[part] = jb[part]
+		x, _ = json.Marshal(m)
+		out = append(out, envCase{"reassembled/" + part + "-of-other", common.MediaJWS, x, ""})
+	}
+	// a valid envelope by another signer, and that envelope carrying the main chain's certificates
+	ob := common.MustSign(common.EnvOpts{Format: common.MediaJWS, Chain: w.other, Target: &d})
+	out = append(out, envCase{"fresh/other-signer", common.MediaJWS, ob, "other"})
+	out = append(out, envCase{"fresh/other-signer", common.MediaCOSE, common.MustSign(common.EnvOpts{Format: common.MediaCOSE, Chain: w.other, Target: &d}), "other"})
+	var jo map[string]json.RawMessage
+	json.Unmarshal(ob, &jo)
+	jo["header"] = ja["header"]
+	x5c, _ := json.Marshal(jo)
+	out = append(out, envCase{"reassembled/other-signature-with-main-x5c", common.MediaJWS, x5c, ""})
+	// envelope of one format offered as the other
+	out = append(out, envCase{"wrong-format", common.MediaCOSE, fresh[common.MediaJWS+"exact"], ""})
+	out = append(out, envCase{"wrong-format", common.MediaJWS, fresh[common.MediaCOSE+"exact"], ""})
+	// byte mutations of valid envelopes
+	nm := 60
+	if c.Thorough() {
+		nm = 1500
+	}
+	for k := 0; k < nm; k++ {
+		f := common.MediaJWS
+		if k%2 == 1 {
+			f = common.MediaCOSE
+		}
+		src := fresh[f+"exact"]
+		m := append([]byte(nil), src...)
+		switch c.Rand.Intn(4) {
+		case 0:
+			m[c.Rand.Intn(len(m))] ^= 1 << uint(c.Rand.Intn(8))
+		case 1:
+			p := c.Rand.Intn(len(m))
+			m = append(m[:p], m[p+1:]...)
+		case 2:
+			m = m[:c.Rand.Intn(len(m))]
+		default:
+			p := c.Rand.Intn(len(m))
+			m[p] = byte(c.Rand.Intn(256))
+		}
+		out = append(out, envCase{"mutated", f, m, ""})
+	}
+	return out
+}
+
+var requiredMaps = map[string][][2]string{
+	"none":        {},
+	"subset":      {{"org.example.build", "42"}},
+	"all":         {{"org.example.build", "42"}, {"org.example.team", "core"}},
+	"value-off":   {{"org.example.build", "41"}},
+	"extra-key":   {{"org.example.build", "42"}, {"org.example.release", "ga"}},
+	"empty-value": {{"org.example.team", ""}},
+}
+
+type levelCase struct {
+	name     string
+	level    string
+	override map[trustpolicy.ValidationType]trustpolicy.ValidationAction
+	trusted  bool // the main chain's root is in the store (otherwise the second chain's root)
+	authLog  bool // the authenticity validation is only logged
+	skip     bool
+}
+
+// rest: do the remaining validations of processSignature accept an envelope of this signer?
+func (lv levelCase) rest(signer string) bool {
+	return lv.skip || lv.authLog || lv.trusted == (signer == "")
+}
+
+func levels() []levelCase {
+	log := trustpolicy.ActionLog
+	return []levelCase{
+		{"strict/trusted", "strict", nil, true, false, false},
+		{"strict/untrusted", "strict", nil, false, false, false},
+		{"permissive/trusted", "permissive", nil, true, false, false},
+		{"permissive/untrusted", "permissive", nil, false, false, false},
+		{"audit/trusted", "audit", nil, true, true, false},
+		{"audit/untrusted", "audit", nil, false, true, false},
+		{"strict+auth:log/untrusted", "strict", map[trustpolicy.ValidationType]trustpolicy.ValidationAction{trustpolicy.TypeAuthenticity: log}, false, true, false},
+		{"strict+all-log/untrusted", "strict", map[trustpolicy.ValidationType]trustpolicy.ValidationAction{trustpolicy.TypeAuthenticity: log,
+			trustpolicy.TypeAuthenticTimestamp: log, trustpolicy.TypeExpiry: log}, false, true, false},
+		{"skip", "skip", nil, false, false, true},
+	}
+}
+
+// recording wrapper around the real blob verifier: keeps the outcome of the inner call
+type recBlobVerifier struct {
+	inner   notation.BlobVerifier
+	outcome *notation.VerificationOutcome
+	called  bool
+}
+
+func (r *recBlobVerifier) VerifyBlob(ctx context.Context, g notation.BlobDescriptorGenerator, sig []byte, o notation.BlobVerifierVerifyOptions) (*notation.VerificationOutcome, error) {
+	r.called = true
+	out, err := r.inner.VerifyBlob(ctx, g, sig, o)
+	r.outcome = out
+	return out, err
+}
+
+func payloadOf(o *notation.VerificationOutcome) *Desc {
+	if o == nil || o.EnvelopeContent == nil {
+		return nil
+	}
+	var p envelope.Payload
+	if json.Unmarshal(o.EnvelopeContent.Payload.Content, &p) != nil {
+		return nil
+	}
+	d := toDesc(p.TargetArtifact)
+	return &d
+}
+
+func runOCI(w *world, e envCase, lv levelCase, artifact ocispec.Descriptor, req [][2]string) (Input, Obs) {
+	store := common.NewMemStore()
+	if lv.trusted {
+		store.Certs["ca:c01"] = []*x509.Certificate{w.chain.Root().Cert}
+	} else {
+		store.Certs["ca:c01"] = []*x509.Certificate{w.other.Root().Cert}
+	}
+	pol := trustpolicy.OCITrustPolicy{Name: "c01", RegistryScopes: []string{"*"},
+		SignatureVerification: trustpolicy.SignatureVerification{VerificationLevel: lv.level, Override: lv.override}}
+	if !lv.skip {
+		pol.TrustStores, pol.TrustedIdentities = []string{"ca:c01"}, []string{"*"}
+		if pol.SignatureVerification.Override == nil {
+			pol.SignatureVerification.Override = map[trustpolicy.ValidationType]trustpolicy.ValidationAction{}
+		}
+		pol.SignatureVerification.Override[trustpolicy.TypeRevocation] = trustpolicy.ActionSkip
+	}
+	doc := &trustpolicy.OCIDocument{Version: "1.0", TrustPolicies: []trustpolicy.OCITrustPolicy{pol}}
+	v, err := verifier.NewVerifierWithOptions(store, verifier.VerifierOptions{OCITrustPolicy: doc})
+	if err != nil {
+		panic(err)
+	}
+	um := map[string]string{}
+	for _, kv := range req {
+		um[kv[0]] = kv[1]
+	}
+	outcome, verr := v.Verify(context.Background(), artifact, e.bytes, notation.VerifierVerifyOptions{
+		ArtifactReference: "reg.example/c01@" + artifact.Digest.String(), SignatureMediaType: e.format, UserMetadata: um})
+	in := Input{Kind: "oci", Skip: lv.skip, Rest: lv.rest(e.signer), Artifact: toDesc(artifact), HashSupported: true, Required: req}
+	in.ParseOk, in.IntegrityOk, in.PayloadTypeOk, in.Decoded, _ = facts(e.bytes, e.format)
+	in.Artifact.Annotations = [][2]string{}
+	o := Obs{Accepted: verr == nil}
+	if outcome != nil {
+		b := outcome.Error != nil
+		o.OutcomeError = &b
+		if verr == nil {
+			o.Payload = payloadOf(outcome)
+		}
+	}
+	return in, o
+}
+
+func runBlob(w *world, e envCase, lv levelCase, blob []byte, mediaType string, req [][2]string) (Input, Obs) {
+	store := common.NewMemStore()
+	if lv.trusted {
+		store.Certs["ca:c01"] = []*x509.Certificate{w.chain.Root().Cert}
+	} else {
+		store.Certs["ca:c01"] = []*x509.Certificate{w.other.Root().Cert}
+	}
+	pol := trustpolicy.BlobTrustPolicy{Name: "c01",
+		SignatureVerification: trustpolicy.SignatureVerification{VerificationLevel: lv.level, Override: lv.override}}
+	if !lv.skip {
+		pol.TrustStores, pol.TrustedIdentities = []string{"ca:c01"}, []string{"*"}
+		if pol.SignatureVerification.Override == nil {
+			pol.SignatureVerification.Override = map[trustpolicy.ValidationType]trustpolicy.ValidationAction{}
+		}
+		pol.SignatureVerification.Override[trustpolicy.TypeRevocation] = trustpolicy.ActionSkip
+	}
+	doc := &trustpolicy.BlobDocument{Version: "1.0", TrustPolicies: []trustpolicy.BlobTrustPolicy{pol}}
+	v, err := verifier.NewVerifierWithOptions(store, verifier.VerifierOptions{BlobTrustPolicy: doc})
+	if err != nil {
+		panic(err)
+	}
+	um := map[string]string{}
+	for _, kv := range req {
+		um[kv[0]] = kv[1]
+	}
+	rec := &recBlobVerifier{inner: v}
+	desc, _, verr := notation.VerifyBlob(context.Background(), rec, bytes.NewReader(blob), e.bytes, notation.VerifyBlobOptions{
+		BlobVerifierVerifyOptions: notation.BlobVerifierVerifyOptions{SignatureMediaType: e.format, UserMetadata: um, TrustPolicyName: "c01"},
+		ContentMediaType:          mediaType})
+	if !rec.called {
+		panic(fmt.Sprintf("c01: notation.VerifyBlob refused the arguments: %v", verr))
+	}
+	// the blob descriptor as the generator computes it: the hash is bound to the signature algorithm;
+	// all keys of this harness are P-256 (SHA-256)
+	art := Desc{MediaType: mediaType, Digest: string(digest.FromBytes(blob)), Size: int64(len(blob)), Annotations: [][2]string{}}
+	in := Input{Kind: "blob", Skip: lv.skip, Rest: lv.rest(e.signer), Artifact: art, HashSupported: true, Required: req}
+	in.ParseOk, in.IntegrityOk, in.PayloadTypeOk, in.Decoded, _ = facts(e.bytes, e.format)
+	o := Obs{Accepted: verr == nil}
+	if rec.outcome != nil {
+		b := rec.outcome.Error != nil
+		o.OutcomeError = &b
+		if verr == nil {
+			o.Payload = payloadOf(rec.outcome)
+		}
+	}
+	if verr == nil && !lv.skip {
+		d := toDesc(desc)
+		d.Annotations = [][2]string{}
+		o.Returned = &d
+	}
+	return in, o
+}
+
+// Run crosses the envelope pool with levels, artifacts and required metadata.
+func Run(c *common.Ctx) error {
+	w := newWorld()
+	lvs := levels()
+	reqNames := make([]string, 0, len(requiredMaps))
+	for k := range requiredMaps {
+		reqNames = append(reqNames, k)
+	}
+	sort.Strings(reqNames)
+	count := func(e envCase, in Input, o Obs) {
+		c.Count("envelope=" + e.label)
+		c.Count(fmt.Sprintf("kind=%s accepted=%v", in.Kind, o.Accepted))
+		c.Count(fmt.Sprintf("integrity=%v", in.IntegrityOk))
+	}
+	// OCI
+	ociEnvs := w.envelopes(c, w.art)
+	for _, e := range ociEnvs {
+		for _, lv := range lvs {
+			for _, rn := range reqNames {
+				// full cross for the structured envelopes; mutated ones with two metadata maps
+				if e.label == "mutated" && rn != "none" && rn != "subset" {
+					continue
+				}
+				in, o := runOCI(w, e, lv, w.art, requiredMaps[rn])
+				c.Emit(in, o)
+				count(e, in, o)
+				c.Count("level=" + lv.name)
+				c.Count("required=" + rn)
+			}
+		}
+	}
+	// blob: the caller states no media type, the signed one, or another one
+	blobEnvs := w.envelopes(c, w.blobDesc)
+	otherBlob := []byte("another blob")
+	for _, e := range blobEnvs {
+		for _, lv := range lvs {
+			for _, mt := range []string{"", "application/octet-stream", "text/plain"} {
+				for _, rn := range reqNames {
+					if (e.label == "mutated" || mt == "text/plain") && rn != "none" && rn != "subset" {
+						continue
+					}
+					in, o := runBlob(w, e, lv, w.blob, mt, requiredMaps[rn])
+					c.Emit(in, o)
+					count(e, in, o)
+				}
+			}
+			// the same signature offered for another blob
+			in, o := runBlob(w, e, lv, otherBlob, "", [][2]string{})
+			c.Emit(in, o)
+			count(e, in, o)
+		}
+	}
+	c.Note("envelope pool: freshly signed JWS/COSE for the exact target and 9 target variants, COSE payload oddities (alternative spelling, duplicate keys, null, non-JSON, extra field), wrong content type, JWS re-assembled from parts of two valid envelopes, wrong format, random byte mutations; crossed with 9 level/trust cases (incl. customised levels and skip), 6 required-metadata maps, OCI descriptors and blobs (3 caller media types, another blob). Envelope facts come from notation-core-go / encoding/json called directly")
+	return nil
+}
